@@ -102,6 +102,25 @@ def enumerate_cases(tier):
                 yield {"kind": "dyadic", "cfg": cfg, "ops_a": [left, right] + refine, "ops_b": [right, left] + refine[::-1],
                        "targets": [["raw", lo, hi], left, right, ["raw", lo, q1], ["raw", q1, mid], ["raw", mid, q3],
                                    ["raw", q3, hi], ["raw", q1, q3]], "cache_b": cache_b}
+    # windows far from the time origin with a fine tolerance (|t| * 1e-9 spans many resolved times): clusters of short
+    # intervals, a few resolved steps each, asked in opposite orders
+    for t0 in (50000.0, -200000.0, 1000.0, 0.0):
+        for levy in ("none", "space-time"):
+            for tol in (1e-6,):
+                idx += 1
+                rnd = random.Random(seed * 5003 + idx)
+                base = t0 + round(rnd.uniform(0.1, 0.9), 3)
+                raws = []
+                for _ in range(120):
+                    a_ = round(base + rnd.randrange(0, 200) * 1e-6, 6)
+                    raws.append(["raw", a_, round(a_ + rnd.randrange(1, 12) * 1e-6, 6)])
+                shuffled = list(raws)
+                rnd.shuffle(shuffled)
+                cfg = {"wrapper": rnd.choice(["interval", "tree"]) if levy == "none" else "interval", "t0": t0, "t1": t0 + 1.0,
+                       "shape": [16], "levy": levy, "entropy": rnd.randrange(2 ** 31), "dtype": "float64",
+                       "cache_size": 45, "dt": None, "tol": tol, "halfway": True, "user_W": False, "user_H": False,
+                       "grid": 1000}
+                yield {"kind": "dyadic", "cfg": cfg, "ops_a": raws, "ops_b": shuffled, "targets": raws[::3], "cache_b": 45}
 
 
 def _eq(x, y):
